@@ -10,9 +10,9 @@
    compares the computed outputs with independently computed direct evaluations. *)
 From Coq Require Import List Arith Bool ZArith.
 From VBase Require Import FieldOps.
-From VModel Require Import FFT.
+From VModel Require Import FFT FFTSplit.
 From VGen Require Import FftIndex.
-From VProofs Require Import FFTSpec FFTRefine FFTEval FFTOffset FFTSegments FFTPermU64 FFTNoPanic FFTGen FFTF17 FFTExamples.
+From VProofs Require Import FFTSpec FFTRefine FFTEval FFTOffset FFTSegments FFTPermU64 FFTNoPanic FFTGen FFTSplit FFTTranspose FFTF17 FFTExamples.
 Import ListNotations.
 Open Scope nat_scope.
 
@@ -307,6 +307,51 @@ Theorem C09_permute_index_generated : forall k i : nat, k <= 63 -> i < 2 ^ k ->
   fftidx_permute_index_ok (Z.of_nat (2 ^ k)) (Z.of_nat i) = true.
 Proof. exact permute_index_model_is_generated. Qed.
 Print Assumptions C09_permute_index_generated.
+
+(* ------------------------------------------------------------------ the four-step FFT of the concurrent build *)
+(* math/src/fft/concurrent.rs split_radix_fft (duplicated in prover/src/matrix/segments.rs), sequentialised over the
+   disjoint rows (C14_disjoint_commute / C14_phase_schedule_independent justify the sequentialisation): transpose,
+   row FFTs fft_in_place_raw(stretch, stretch, 0), transpose, outer twiddles g^(bitrev(i) * m), row FFTs — returns
+   EXACTLY the vector fft_in_place returns (same bit-reversed order; concurrent::evaluate_poly permutes afterwards),
+   for n = 4^(K+1) (s = 0, stretch 1) and n = 2 * 4^(K+1) (s = 1, stretch 2), every K, every field with FLaws.
+   Model/FFTSplit.v: `split_radix_fft_with tr`; here with the transposition given by its index specification
+   `transpose_spec` (cell (r,c) <- cell (c,r)) — the algebraic and index core; C09_split_radix_is_fft below is the
+   statement for the faithful swap-loop transpositions. *)
+Theorem C09_split_radix_core : forall (F : Type) (O : FOps F), FLaws O ->
+  forall (tw : list F) (K s : nat) (w : F) (x : list F),
+  s <= 1 -> length x = 2 ^ (S K + S K + s) -> length tw = 2 ^ (S K + K + s) ->
+  tw_ok O tw (S K + S K + s) w -> root_cond O (S K + S K + s) w ->
+  split_radix_fft_spec_tr O x tw = Some (fft_in_place_top O x tw).
+Proof. exact @split_radix_spec_tr_is_fft. Qed.
+Print Assumptions C09_split_radix_core.
+
+(* the in-place transpositions (swap loops over the upper triangle: 2x2 blocks for stretch 1, 1x2 blocks for
+   stretch 2) are the transposition of the size x size matrix of `stretch`-element cells, every size *)
+Theorem C09_transpose_square_stretch_spec : forall (F : Type) (O : FOps F) (m : list F) (size st : nat),
+  length m = size * size * st -> (st = 1 /\ size mod 2 = 0) \/ st = 2 ->
+  transpose_square_stretch O m size st = Some (transpose_spec O size st m).
+Proof. exact @transpose_square_stretch_spec. Qed.
+Print Assumptions C09_transpose_square_stretch_spec.
+
+(* split_radix_fft (faithful: swap-loop transpositions, fft_in_place_raw rows, running-product outer twiddles)
+   returns exactly the vector of fft_in_place, n = 4^(K+1) and n = 2*4^(K+1), every K.  C14-facing: every
+   `concurrent` build evaluates the same function as the serial build wherever it calls split_radix_fft. *)
+Theorem C09_split_radix_is_fft : forall (F : Type) (O : FOps F), FLaws O ->
+  forall (tw : list F) (K s : nat) (w : F) (x : list F),
+  s <= 1 -> length x = 2 ^ (S K + S K + s) -> length tw = 2 ^ (S K + K + s) ->
+  tw_ok O tw (S K + S K + s) w -> root_cond O (S K + S K + s) w ->
+  split_radix_fft O x tw = Some (fft_in_place_top O x tw).
+Proof. exact @split_radix_is_fft. Qed.
+Print Assumptions C09_split_radix_is_fft.
+
+(* concurrent::evaluate_poly = split_radix_fft then permute = [p(w^i)]_i in natural order *)
+Theorem C09_evaluate_poly_concurrent_spec : forall (F : Type) (O : FOps F), FLaws O ->
+  forall (tw : list F) (K s : nat) (w : F) (p : list F),
+  s <= 1 -> length p = 2 ^ (S K + S K + s) -> length tw = 2 ^ (S K + K + s) ->
+  tw_ok O tw (S K + S K + s) w -> root_cond O (S K + S K + s) w ->
+  evaluate_poly_concurrent O p tw = Some (map (fun i => peval O p (fpow O w i)) (seq 0 (2 ^ (S K + S K + s)))).
+Proof. exact @evaluate_poly_concurrent_correct. Qed.
+Print Assumptions C09_evaluate_poly_concurrent_spec.
 
 (* ------------------------------------------------------------------ non-vacuity (Z/17, w = 3 of order 16) *)
 Theorem C09_nonvacuous_field : FLaws f17_ops.
